@@ -63,7 +63,7 @@ def replay(ck):
         v = xcases.parse_verdicts(o) if rc2 == 0 else None
         print("REPLAY oracle failures on the implementation:", json.dumps(t["oracle"], indent=1))
         print("REPLAY model variants (0 = agrees; k = first disagreeing event + 1) as-is/as-is, as-is/prune-repaired, "
-              "index-repaired/as-is, both repaired:", v)
+              "index-repaired/as-is, both repaired; then the same four with clipped shard groups:", v)
         for f in t["oracle"]:
             fid = next((name for name, sig in SIGS if sig(f)), None)
             if fid and ck.match_finding(fid):
@@ -180,8 +180,10 @@ def sig_prune_neighbour(f):
 
 
 SIGS = [("C14-index-outlived-by-shard", sig_index_outlived), ("C14-prune-marks-neighbour", sig_prune_neighbour)]
-VARIANTS = ["index-choice as-is / prune as-is", "index-choice as-is / prune repaired",
-            "index-choice repaired / prune as-is", "index-choice repaired / prune repaired"]
+_V4 = ["index-choice as-is / prune as-is", "index-choice as-is / prune repaired",
+       "index-choice repaired / prune as-is", "index-choice repaired / prune repaired"]
+VARIANTS = [v + " / no clip" for v in _V4] + [v + " / clip" for v in _V4]
+NV = len(VARIANTS)
 
 
 def run_ix(ck, binp, coq_ok):
@@ -212,17 +214,17 @@ def run_ix(ck, binp, coq_ok):
         else:
             verdicts += v
     # which variant of the model does the working tree implement? (one that agrees with every trace)
-    alive = [True] * 4
+    alive = [True] * NV
     first_bad = None
     for i, v in enumerate(verdicts):
         if v is None:
             continue
-        for k in range(4):
+        for k in range(NV):
             if v[k] != 0:
                 alive[k] = False
         if first_bad is None and all(x != 0 for x in v):
             first_bad = (i, min(v) - 1)
-    impl = [VARIANTS[k] for k in range(4) if alive[k]]
+    impl = [VARIANTS[k] for k in range(NV) if alive[k]]
     ck.cov["ix_variant_of_tree"] = impl
     ck.cov["ix_traces_distinguishing"] = sum(1 for v in verdicts if v and len(set(x == 0 for x in v)) > 1)
     # direct oracle
